@@ -24,6 +24,15 @@ CHECKS = {
  "C15": ("model_checking", "E-STATE", "explicit-state search over status/purge/rebuild/undo/remote-sync histories on real replicas (both storages) with the statement's working-set obligations as oracle after every rebuild and commit",
          "Every history up to depth 5-9 over 3-4 tasks; gaps and entries whose task vanished arise by construction (purge, remote completion/deletion through a real second replica and sync); after every rebuild the working set must contain exactly the pending/recurring tasks once each, slot 0 empty, numbers stable without renumbering, 1..n in order with renumbering.",
          "'after all numbers in use' is read as 'greater than every surviving number'", "5/C15"),
+ "C18": ("exploration", "exhaustive sweep", "exhaustive enumeration of stored task maps (singles, pairs, reduced triples over edge keys x edge values) with every public read accessor called under panic capture on the real Replica/Task/TaskData/WorkingSet/DependencyMap",
+         "Every (key,value) entry over 28 recognised keys/prefixes x 22 edge values, every pair with a status/wait/modified/start entry (thorough: all pairs) and all triples of a reduced alphabet are stored through real operations (singles also through a sync into a second replica) and then every public reader is invoked; any panic is a violation. This is an input sweep, not a state search, hence 'exploration'.",
+         "string domain is the listed edge values; a second well-formed pending task depending on the subject is always present", "5/C18"),
+ "C19": ("model_checking", "E-STATE + E-DIFF", "explicit-state search over editing sessions of real Task mutators in lock step with a task model (recorded operations incl. old values, held object, usage errors), storage comparison at every commit, recomputation of synthetic tags and dependency map after every store",
+         "Every history up to depth 5-8 over open-session / mutator call / commit+reload / low-level TaskData edits of the task and of its dependency target / rebuild, from four stored prior states (absent, pending, completed+end+dependency, status/end disagreeing).",
+         "clock values abstracted to NOW and window-checked; argument domains are single representative values per mutator", "5/C19"),
+ "C20": ("exploration", "exhaustive sweep + sync orders", "exhaustive sweep of status x modification-time values through the real Replica::expire_tasks on both storages, then every sync order of an expiring replica against concurrently editing replicas",
+         "All 8 status values x 20 modification-time values (boundaries of the 180-day threshold, missing, non-numeric, out of range in both directions, i64 extremes), alone and together, on in-memory and SQLite; then every expirable task x 4 concurrent edits x 2-3 replicas x every sync order; the purged task must be gone everywhere and nothing else touched.",
+         "boundary values are >= 2 s (old side) / 60 s (new side) away from the threshold because the clock is real", "5/C20"),
  "C12": ("model_checking", "E-STATE", "explicit-state search with snapshot urgency and avoid_snapshots as enumerated environment answers; independent snapshot decoder + chain-replay model; fresh replica from snapshot on every state",
          "Every history (incl. multi-version syncs and odd Unicode strings) x every urgency answer; each uploaded snapshot is decoded independently and compared with the chain replay at exactly its version; on every state a new replica is started from the latest snapshot against a server that discarded the earlier versions.",
          "snapshot => urgency>=threshold is asserted (the statement's 'only when'); the converse is counted, not asserted; one 2000-task (thorough 20000) scenario stands for 'thousands of tasks'", "5/C12"),
@@ -62,7 +71,7 @@ m = {
     "add_only": True,
   },
   "engines": [
-    {"name": "E-STATE", "path": "harness/src/explore/state.rs", "serves_properties": ["C01","C03","C05","C07","C12","C14","C15"], "kind_free_text": "explicit-state depth-bounded DFS with iterative deepening over real objects, canonical-key dedup, rayon-parallel"},
+    {"name": "E-STATE", "path": "harness/src/explore/state.rs", "serves_properties": ["C01","C03","C05","C07","C12","C14","C15","C19"], "kind_free_text": "explicit-state depth-bounded DFS with iterative deepening over real objects, canonical-key dedup, rayon-parallel"},
     {"name": "E-SCHED", "path": "harness/src/explore/sched.rs", "serves_properties": ["C02"], "kind_free_text": "controlled scheduler over real futures: one runnable task at a time, stateless DFS over choice prefixes with iterative deviation (preemption/fault) bounding"},
   ],
   "checks": checks,
